@@ -46,11 +46,13 @@ Checks(e) ==
     [] e.ev = "report" -> LET o == Eff(opts, e) IN
                           [ in_session |-> phase = "session",
                             rows_from_pristine_profile |->
-                               IF e.kind = "top"
+                               IF e.kind \in {"top", "tree"}
                                THEN /\ \A i \in DOMAIN e.rows : \E r \in TopRows(prof, o) : r.fn = e.rows[i].fn /\ r.flat = e.rows[i].flat /\ r.cum = e.rows[i].cum
                                     /\ \A r \in TopRows(prof, o) : (r.flat # 0 \/ r.cum # 0) => \E i \in DOMAIN e.rows : e.rows[i].fn = r.fn
                                ELSE ToSetOf(e.stacks) = TraceRows(prof, o) /\ Len(e.stacks) = Cardinality(TraceRows(prof, o)),
-                            total |-> e.kind = "top" /\ e.hastotal => e.total = Total(prof, o) ]
+                            edges_from_pristine_profile |-> e.kind = "tree" =>
+                               (ToSetOf(e.edges) = TreeEdges(prof, o) /\ Len(e.edges) = Cardinality(TreeEdges(prof, o))),
+                            total |-> e.kind \in {"top", "tree"} /\ e.hastotal => e.total = Total(prof, o) ]
     [] e.ev = "noop"   -> [ in_session |-> phase = "session" ]
     [] e.ev = "error"  -> [ only_if_nothing_fetched |-> phase = "fetch" /\ pending = {} /\ ~AnyOk ]
     [] e.ev = "end"    -> [ session_was_reached |-> phase = "session" ]
